@@ -32,6 +32,7 @@ type Op struct {
 	Twice   bool   `json:"twice,omitempty"`   // update: broadcast(); getWaitCh(); broadcast() inside one critical section
 	Panic   bool   `json:"panic,omitempty"`   // update: the callback panics after its broadcast (the caller recovers)
 	Pick    int    `json:"pick,omitempty"`
+	PredAct bool   `json:"predact,omitempty"` // wait: the predicate's first evaluation takes the wait channel, broadcasts and takes it again
 }
 
 // Case is a generated history plus schedule.
@@ -56,6 +57,7 @@ func genCase(t *rapid.T) Case {
 				}
 			}
 			op.Pre = rapid.IntRange(0, 11).Draw(t, "pre") == 0
+			op.PredAct = rapid.IntRange(0, 4).Draw(t, "predact") == 0
 			if rapid.IntRange(0, 5).Draw(t, "hasdl") == 0 {
 				op.Dl = rapid.IntRange(1, 2).Draw(t, "dl")
 			}
@@ -228,6 +230,21 @@ func body(c *sched.Ctl, cs Case, v *ev.Verdict) {
 				err := b.Wait(ctx, func(broadcast func(), getWaitCh func() <-chan struct{}) (bool, error) {
 					w.evals++
 					w.lastTrue, w.lastErr = false, nil
+					if w.op.PredAct && w.evals == 1 {
+						// the predicate uses both functions it is handed, like any other critical section
+						ch := getWaitCh()
+						hm.Lock()
+						chans = append(chans, handed{ch, bcount, w.label + "(predicate, before its broadcast)"})
+						hm.Unlock()
+						broadcast()
+						hm.Lock()
+						bcount++
+						hm.Unlock()
+						ch = getWaitCh()
+						hm.Lock()
+						chans = append(chans, handed{ch, bcount, w.label + "(predicate, after its broadcast)"})
+						hm.Unlock()
+					}
 					if w.op.ErrAt != 0 && state == errState(w.op.ErrAt) {
 						w.lastErr = errFor(w.id, w.op.ErrKind)
 						return w.op.ErrDone, w.lastErr
@@ -434,7 +451,7 @@ func body(c *sched.Ctl, cs Case, v *ev.Verdict) {
 func TestC03(t *testing.T) {
 	ev.Drive(t, ev.Runner[Case]{
 		Prop: P,
-		Rule: "one Broadcast guarding an integer; ops Wait(state>=k | error at e, cancellable), Update via HoldLock/TryHoldLock/HoldLockMaybeAsync (optionally taking a wait channel before/after its broadcast), spurious broadcast, Peek (keep a wait channel), Cancel; generated interleaving of all critical sections; non-trivial iff an update's critical section ran while a waiter was parked between its own critical section and its blocking receive, or a Wait was cancelled after its predicate had been evaluated; distinct by hash(ops, realised grant trace)",
+		Rule: "one Broadcast guarding an integer; ops Wait(state>=k | error at e, cancellable; the predicate may itself take the wait channel, broadcast and take it again), Update via HoldLock/TryHoldLock/HoldLockMaybeAsync (optionally taking a wait channel before/after its broadcast), spurious broadcast, Peek (keep a wait channel), Cancel; generated interleaving of all critical sections; non-trivial iff an update's critical section ran while a waiter was parked between its own critical section and its blocking receive, or a Wait was cancelled after its predicate had been evaluated; distinct by hash(ops, realised grant trace)",
 		Gen:  genCase,
 		Run:  run,
 	})
